@@ -518,6 +518,8 @@ fn compile_to_ir_using_alpha(
 		compiler.for_wasm()?;
 	}
 
+	let mut written_outputpaths = std::collections::HashSet::new();
+
 	for (filepath, declarations) in modules
 	{
 		let filename = filepath.to_string_lossy().to_string();
@@ -574,6 +576,17 @@ fn compile_to_ir_using_alpha(
 				path.set_extension("pn.ll");
 				path
 			};
+			// Two source files, say `lib.pn` and `../lib.pn`, can end up
+			// with the same place inside the output directory.
+			if !written_outputpaths.insert(outputpath.clone())
+			{
+				return Err(anyhow!(
+					"the IR of '{}' and of another source file would both be \
+					 written to '{}'",
+					filename,
+					outputpath.to_string_lossy()
+				));
+			}
 			let dirname = outputpath.parent().context("invalid output dir")?;
 			std::fs::create_dir_all(dirname)?;
 			stdout.io_header("Writing to", &outputpath)?;
